@@ -5,6 +5,8 @@
 # concrete / partial / symbolic environments, map write/read/composition, comp assignment, merge) is dumped before and
 # after by an independent walker: its width must not change and a changed shape must evaluate identically under fixed
 # valuations - in the Python reference walker and in the Gallina reference semantics (Amoco.Exp.Sem.denote, vm_compute).
+# Vec operands: expressions that are SETS of alternatives (flat / nested vecs with top, bottom and widened alternatives, inside
+# operators, slices, conditionals, compositions and map values) are compared as the set of values they denote (vec_case, den).
 # Pickle: str, ==, hash, walker fingerprint and reference evaluation of loads(dumps(x)) for expressions, maps and memory.
 import json
 import pickle
@@ -128,8 +130,9 @@ def compare(snap, envs, raw=False):
     return bad
 
 
-def apply_ops(cx, e, B, rng, watch):
-    """random operations taking e (or nodes of e) as arguments; returns the list of operation names applied"""
+def apply_ops(cx, e, B, rng, watch, OPTS=OPTS):
+    """random operations taking e (or nodes of e) as arguments; returns the list of operation names applied (OPTS: the simplify
+    options they draw from)"""
     E = cx.E
     names = []
     regs = list(B.regs.values())
@@ -861,6 +864,524 @@ def map_worker(args):
     return out
 
 
+# ------------------------------------------------------------------------------------------
+# vec operands: an expression that is a SET of alternatives (what merging maps produces).  Under a valuation a vec denotes
+# the set of the values of its alternatives, and 'any value' as soon as one alternative is undefined (top, a widened vec,
+# a never-written / bottom value, or anything that denotes 'any value' itself).  Using such an operand - directly, nested in
+# other nodes, or held by a map - may re-shape it in place (flatten, drop duplicates, simplify alternatives) but the set it
+# denotes must stay what it was.  Descriptors (plain lists) are built once per case and kept for the replay file:
+#   ("c",v,n) ("r",name,n) ("top",n) ("bot",n) ("op",sym,A,B,raw) ("un",sym,A,raw) ("slc",A,pos,n,raw) ("tst",C,A,B)
+#   ("cat",[A..],how) ("vec",[A..]) ("vecw",[A..])
+# ------------------------------------------------------------------------------------------
+ANY = "ANY"
+V_WIDTHS = [1, 8, 8, 16, 32, 32, 32, 64, 7, 33]
+V_SYMS = ["+", "-", "^", "&", "|", "*"]
+V_SET_CAP = 4096
+
+
+def vreg(rng, n):
+    return ("r", "v%d_%d" % (n, rng.randrange(3)), n)
+
+
+def vgen_def(rng, n, depth):
+    """descriptor of an n-bit expression without undefined leaves"""
+    c = rng.random()
+    if depth <= 0 or c < 0.40:
+        if rng.random() < 0.3:
+            return ("c", rng.choice([0, 1, X.mask(n), rng.getrandbits(n), rng.randrange(0, min(1 << n, 9))]), n)
+        return vreg(rng, n)
+    if c < 0.70:
+        return ("op", rng.choice(V_SYMS), vgen_def(rng, n, depth - 1), vgen_def(rng, n, depth - 1), rng.random() < 0.5)
+    if c < 0.80:
+        return ("un", rng.choice("-~"), vgen_def(rng, n, depth - 1), rng.random() < 0.5)
+    if c < 0.90:
+        m = n + rng.choice([0, 1, 8, 24])
+        return ("slc", vgen_def(rng, m, depth - 1), rng.randrange(0, m - n + 1), n, rng.random() < 0.5)
+    return ("tst", vgen_cond(rng, depth - 1), vgen_def(rng, n, depth - 1), vgen_def(rng, n, depth - 1))
+
+
+def vgen_cond(rng, depth):
+    if rng.random() < 0.6 or depth <= 0:
+        return ("r", "vc%d" % rng.randrange(2), 1)
+    m = rng.choice([8, 32])
+    return ("op", rng.choice(["==", "!="]), vgen_def(rng, m, depth - 1), vgen_def(rng, m, 0), rng.random() < 0.5)
+
+
+def vgen_undef(rng, n, depth):
+    """descriptor of an n-bit expression that is, or simplifies to, an undefined value"""
+    c = rng.random()
+    if c < 0.35:
+        return ("top", n)
+    if c < 0.55:
+        return ("bot", n)
+    if c < 0.75:
+        return ("vecw", [vgen_def(rng, n, max(depth - 1, 0)) for _ in range(rng.randrange(2, 4))])
+    if c < 0.85 or depth <= 0:
+        l, r = vgen_undef(rng, n, 0), vgen_def(rng, n, max(depth - 1, 0))
+        if rng.random() < 0.5:
+            l, r = r, l
+        return ("op", rng.choice(V_SYMS), l, r, True)
+    if c < 0.92:
+        m = n + rng.choice([0, 8])
+        return ("slc", vgen_undef(rng, m, 0), rng.randrange(0, m - n + 1), n, True)
+    return vgen_vec(rng, n, depth - 1, True)
+
+
+def vgen_vec(rng, n, depth, undefined):
+    """a vec of 2-4 alternatives (duplicates and nested vecs included); undefined: at least one alternative is undefined, at
+    any position"""
+    k = rng.randrange(2, 5)
+    alts = []
+    for i in range(k):
+        c = rng.random()
+        if alts and c < 0.2:
+            alts.append(rng.choice(alts))                                  # a duplicate
+        elif c < 0.4 and depth > 0:
+            alts.append(vgen_vec(rng, n, depth - 1, False))                # a nested (all-defined) vec
+        else:
+            alts.append(vgen_def(rng, n, depth))
+    if undefined:
+        for _ in range(1 if rng.random() < 0.8 else 2):
+            alts.insert(rng.randrange(len(alts) + 1), vgen_undef(rng, n, depth))
+    return ("vec", alts)
+
+
+def vgen_operand(rng, n, depth=2):
+    """an n-bit operand holding a vec: the vec itself, or a vec inside operators / slices / conditionals / compositions"""
+    undefined = rng.random() < 0.7
+    c = rng.random()
+    if c < 0.35 or depth <= 0:
+        return vgen_vec(rng, n, 2, undefined)
+    inner = lambda m=n: vgen_operand(rng, m, depth - 1)
+    if c < 0.50:
+        l, r = inner(), vgen_def(rng, n, 1)
+        if rng.random() < 0.5:
+            l, r = r, l
+        return ("op", rng.choice(V_SYMS), l, r, rng.random() < 0.8)
+    if c < 0.58:
+        return ("un", rng.choice("-~"), inner(), rng.random() < 0.8)
+    if c < 0.70:
+        m = n + rng.choice([0, 3, 8, 32])
+        return ("slc", inner(m), rng.randrange(0, m - n + 1), n, rng.random() < 0.8)
+    if c < 0.84:
+        l, r = inner(), (vgen_def(rng, n, 1) if rng.random() < 0.7 else inner())
+        if rng.random() < 0.5:
+            l, r = r, l
+        cond = vgen_cond(rng, 1) if rng.random() < 0.8 else vgen_vec(rng, 1, 0, rng.random() < 0.5)
+        return ("tst", cond, l, r)
+    if n >= 2:
+        cut = rng.randrange(1, n)
+        if n >= 16 and rng.random() < 0.7:
+            cut = 8 * rng.randrange(1, n // 8)
+        parts = [inner(cut), vgen_def(rng, n - cut, 1) if rng.random() < 0.6 else inner(n - cut)]
+        if rng.random() < 0.5:
+            parts.reverse()
+        return ("cat", parts, rng.choice(["parts", "parts", "composer"]))
+    return vgen_vec(rng, n, 1, undefined)
+
+
+def vsize(d):
+    k = d[0]
+    if k in ("c", "r"):
+        return d[2]
+    if k in ("top", "bot"):
+        return d[1]
+    if k == "op":
+        return 1 if d[1] in ("==", "!=") else vsize(d[2])
+    if k == "un":
+        return vsize(d[2])
+    if k == "slc":
+        return d[3]
+    if k == "tst":
+        return vsize(d[2])
+    if k == "cat":
+        return sum(vsize(x) for x in d[1])
+    return vsize(d[1][0])
+
+
+class VRegs:
+    """the registers of a case (name -> object), created on demand: what apply_ops expects of a builder"""
+    def __init__(self, E):
+        self.E = E
+        self.regs = {}
+
+    def get(self, name, n):
+        r = self.regs.get(name)
+        if r is None:
+            r = self.regs[name] = self.E.reg(name, n)
+        return r
+
+
+def vbuild(E, R, d):
+    k = d[0]
+    if k == "c":
+        return E.cst(d[1], d[2])
+    if k == "r":
+        return R.get(d[1], d[2])
+    if k == "top":
+        return E.top(d[1])
+    if k == "bot":
+        return E.exp(d[1])
+    if k == "op":
+        l, r = vbuild(E, R, d[2]), vbuild(E, R, d[3])
+        return E.op(d[1], l, r) if d[4] else E.oper(d[1], l, r)
+    if k == "un":
+        r = vbuild(E, R, d[2])
+        return E.uop(d[1], r) if d[3] else E.oper(d[1], r)
+    if k == "slc":
+        x = vbuild(E, R, d[1])
+        return E.slc(x, d[2], d[3]) if d[4] else x[d[2]:d[2] + d[3]]
+    if k == "tst":
+        return E.tst(vbuild(E, R, d[1]), vbuild(E, R, d[2]), vbuild(E, R, d[3]))
+    if k == "cat":
+        parts = [vbuild(E, R, x) for x in d[1]]
+        if d[2] == "composer":
+            return E.composer(parts)
+        c = E.comp(sum(p.size for p in parts))
+        pos = 0
+        for p in parts:
+            c[pos:pos + p.size] = p
+            pos += p.size
+        return c
+    if k == "vec":
+        return E.vec([vbuild(E, R, x) for x in d[1]])
+    if k == "vecw":
+        return E.vecw(E.vec([vbuild(E, R, x) for x in d[1]]))
+    raise ValueError(d)
+
+
+def has_kind(t, kinds):
+    """a node of one of the kinds occurs in the dumped tree"""
+    if isinstance(t, tuple):
+        if t and t[0] in kinds:
+            return True
+        return any(has_kind(x, kinds) for x in t)
+    if isinstance(t, list):
+        return any(has_kind(x, kinds) for x in t)
+    return False
+
+
+def den(t, env):
+    """the set of values (frozenset of integers in [0, 2^width)) the dumped tree can take under the valuation, ANY when that is
+    exactly the set of all values of its width; Ambiguous when the set is not determined here (memory, mixed signedness, large
+    sets, the image of 'any value' under an operator that is not a bijection: 0 * x is 0 whatever x is)"""
+    k = t[0]
+    if k in ("top", "bot", "vecw"):
+        return ANY
+    if k == "cst":
+        return frozenset([t[1] & X.mask(t[2])])
+    if k == "reg":
+        if t[1] not in env:
+            raise X.Ambiguous("free register " + str(t[1]))
+        return frozenset([env[t[1]] & X.mask(t[2])])
+    if k == "vec":
+        ds, amb = [], None
+        for x in t[1]:
+            try:
+                ds.append(den(x, env))
+            except (X.Ambiguous, ZeroDivisionError) as ex:
+                amb = ex
+        if any(d is ANY for d in ds):
+            return ANY                          # whatever the other alternatives are
+        if amb is not None:
+            raise X.Ambiguous(str(amb))
+        out = frozenset().union(*ds)
+        if len(out) > V_SET_CAP:
+            raise X.Ambiguous("large set")
+        return out
+    if k == "slc":
+        d = den(t[1], env)
+        return ANY if d is ANY else frozenset((x >> t[2]) & X.mask(t[3]) for x in d)
+    if k == "comp":
+        ds = [(lo, hi, den(p, env)) for lo, hi, p in t[1]]
+        if all(d is ANY for lo, hi, d in ds) and ds:
+            return ANY
+        if any(d is ANY for lo, hi, d in ds):
+            raise X.Ambiguous("any value in a part")
+        out = {0}
+        for lo, hi, d in ds:
+            if len(out) * len(d) > V_SET_CAP:
+                raise X.Ambiguous("large set")
+            out = {v | ((x & X.mask(hi - lo)) << lo) for v in out for x in d}
+        return frozenset(out)
+    if k == "tst":
+        c = den(t[1], env)
+        out = frozenset()
+        for b, br in ((1, t[2]), (0, t[3])):
+            if c is ANY or any((x == 1) == (b == 1) for x in c):
+                d = den(br, env)
+                if d is ANY:
+                    return ANY
+                out |= d
+        return out
+    if k == "uop":
+        d = den(t[2], env)
+        if d is ANY:
+            if t[1] in ("-", "~", "+"):
+                return ANY                      # a bijection of the values of that width
+            raise X.Ambiguous("image of any value")
+        return frozenset(X.ref_unop(t[1], x, t[3]) for x in d)
+    if k == "op":
+        s, l, r = t[1], t[2], t[3]
+        a, b = den(l, env), den(r, env)
+        if a is ANY or b is ANY:
+            o = b if a is ANY else a
+            if s in ("+", "-", "^") and (o is ANY or len(o) > 0):
+                return ANY                      # x -> x op c is a bijection for every c
+            raise X.Ambiguous("image of any value")
+        sg = None
+        if s in X.SCMP + ("**", "/", "%"):
+            sl, sr = X.d_sf(l), X.d_sf(r)
+            if sl != sr:
+                raise X.Ambiguous("mixed signedness")
+            sg = sl
+        if len(a) * len(b) > V_SET_CAP:
+            raise X.Ambiguous("large set")
+        n = X.d_size(l)
+        return frozenset(X.ref_binop(s, x, y, n, sg)[0] for x in a for y in b)
+    raise X.Ambiguous("node " + k)
+
+
+def show_den(d):
+    if d is ANY:
+        return "any value"
+    return "{" + ",".join("%#x" % x for x in sorted(d)[:6]) + (",.." if len(d) > 6 else "") + "}"
+
+
+def compare_sets(snap, envs):
+    """[(kind, detail, tree0, tree1)] for watched nodes whose width, or the set of values they denote, changed"""
+    bad = []
+    for o, d0, n0 in snap:
+        try:
+            d1 = X.dump(o)
+        except Exception as x:
+            bad.append(("undumpable", "a watched node can no longer be walked: %r" % (x,), d0, None))
+            continue
+        if o.size != n0:
+            bad.append(("width", "width of a watched %s node changed from %d to %d" % (d0[0], n0, o.size), d0, d1))
+            continue
+        if d1 == d0:
+            continue
+        decided = False
+        for env in envs:
+            env = complete(env, d0, d1)
+            try:
+                s0, s1 = den(d0, env), den(d1, env)
+            except (X.Ambiguous, ZeroDivisionError):
+                continue
+            decided = True
+            if s0 != s1:
+                # every value it could take is still there (a larger set, or 'any value'): the operand was over-approximated
+                # (widened) in place; everything else: it lost values
+                kind = "value-set-widened" if (s0 is not ANY and (s1 is ANY or s0 < s1)) else "value-set"
+                bad.append((kind, "a watched %s node was re-shaped from %s into the non-equivalent %s: it denotes %s before and %s after "
+                            "under %s" % (d0[0], str(d0)[:90], str(d1)[:90], show_den(s0), show_den(s1), env), d0, d1))
+                break
+        else:
+            bad.append(("reshaped-equivalent" if decided else "reshaped-undecided", "", d0, d1))
+    return bad
+
+
+def apply_vec_ops(cx, e, R, rng, watch, OPTS=OPTS):
+    """operations that take the operand (or one of its nodes) as an argument where it is kept by reference: raw nodes simplified
+    with every option, composer, and maps that hold it (store, read, evaluate, compose, merge, copy)"""
+    from amoco.cas.mapper import merge
+    E = cx.E
+    names = []
+    nodes = reachable(e)
+    vecs = [x for x in nodes if getattr(x, "_is_vec", False)]
+    for _ in range(rng.randrange(1, 3)):
+        k = rng.randrange(9)
+        sub = rng.choice(vecs) if vecs and rng.random() < 0.5 else rng.choice(nodes)
+        n = sub.size
+        other = R.get("w%d" % n, n) if rng.random() < 0.7 else E.cst(rng.getrandbits(n), n)
+        opt = rng.choice(OPTS)
+        try:
+            if k == 0:
+                sym = rng.choice(V_SYMS)
+                x = E.op(sym, sub, other) if rng.random() < 0.5 else E.op(sym, other, sub)
+                x.simplify(**opt)
+                names.append("raw-op-simplify")
+            elif k == 1:
+                E.uop(rng.choice("-~"), sub).simplify(**opt)
+                names.append("raw-uop-simplify")
+            elif k == 2:
+                a = rng.randrange(0, n)
+                b = rng.randrange(a + 1, n + 1)
+                E.slc(sub, a, b - a).simplify(**opt)
+                names.append("raw-slc-simplify")
+            elif k == 3:
+                cond = R.get("cnd", 1)
+                t = E.tst(cond, sub, other) if rng.random() < 0.5 else E.tst(cond, other, sub)
+                t.simplify(**opt)
+                names.append("raw-tst-simplify")
+            elif k == 4:
+                parts = [sub, other[0:rng.randrange(1, n + 1)]]
+                rng.shuffle(parts)
+                c = E.composer(parts)
+                c.simplify(**opt)
+                names.append("composer")
+            elif k == 5:
+                c = E.comp(n + 8)
+                c[0:n] = sub
+                c[n:n + 8] = E.cst(0x5A, 8)
+                c.simplify(**opt)
+                c[4:n + 4] if n > 4 else c[0:n]
+                names.append("comp-part-simplify")
+            else:
+                # a map holds the operand (memory keeps what it is given, a register entry what it simplifies to); the map is
+                # then read, evaluated, composed, merged and copied, and so is what it returned
+                m = cx.mapper()
+                P = R.get("ptr", 32)
+                loc = E.mem(P, n, disp=rng.choice([0, 4]))
+                dst = R.get("dst%d" % n, n)
+                how = rng.randrange(3) if n % 8 == 0 else 1          # memory holds whole bytes
+                if how != 1:
+                    m[loc] = sub
+                if how != 0:
+                    m[dst] = sub
+                for l_, v_ in m:
+                    watch.extend(snapshot(reachable(v_)))
+                m2 = cx.mapper()
+                for g in list(R.regs.values())[:3]:
+                    m2[g] = (g ^ E.cst(1, g.size)) if rng.random() < 0.5 else E.cst(rng.getrandbits(g.size), g.size)
+                m2[P] = P + rng.choice([0, 4, 8])
+                for _u in range(rng.randrange(1, 4)):
+                    u = rng.randrange(8)
+                    if u == 0:
+                        got = m[loc] if how != 1 else m[dst]
+                        watch.extend(snapshot(reachable(got)))
+                        (got + 1).simplify(**opt) if n > 1 else got.simplify(**opt)
+                    elif u == 1:
+                        got = m(loc) if how != 1 else m(dst)
+                        got.simplify(**opt)
+                    elif u == 2:
+                        m(E.tst(R.get("cnd", 1), loc if how != 1 else dst, other))
+                    elif u == 3:
+                        (m2 >> m)
+                        (m >> m2)
+                    elif u == 4:
+                        (m << m2)
+                        m.eval(m2)
+                    elif u == 5:
+                        merge(m, m2, **opt) if rng.random() < 0.5 else merge(m2, m, **opt)
+                    elif u == 6:
+                        m.use()
+                        pickle.loads(pickle.dumps(m))
+                    else:
+                        m3 = cx.mapper()
+                        m3[dst] = E.tst(R.get("cnd", 1), sub, other)
+                        merge(m3, m)
+                        (m3 << m2)
+                names.append("map-holds-operand")
+        except (MemoryError, RecursionError):
+            raise
+        except Exception:
+            names.append("vop%d-raised" % k)
+    return names
+
+
+# Pending triage (reported, not listed): amoco over-approximates operands IN PLACE - the operand keeps every value it could take
+# but gains others.  Seen on the unchanged tree: (a) with conf.Cas.complexity > 0 a too complex vec inside the operand is
+# replaced by top; (b) when an expression containing the operand is simplified with widening=True, a conditional inside the
+# operand is replaced by the vec of its branches and a vec by a widened vec; (c) simplify(bitslice=True) of `vec & mask` inside
+# the operand replaces it by a composite of per-bit vecs, which forgets that the bits come from the same alternative.
+# An operand that LOSES a value it could take (from 'any value' to a finite set, from a set to another that does not contain
+# it) is decisive everywhere.  Set the constant True to make in-place over-approximation decisive too.
+WATCH_IN_PLACE_WIDENING = False
+
+
+def vec_case(cx, case_seed, out, verbose=False):
+    """one vec operand, 1-2 rounds of operations on it, comparison of the sets its nodes denote; everything is drawn from
+    case_seed (kept in the replay file)"""
+    import signal
+    rng = random.Random(case_seed)
+    cx.conf.Cas.complexity = 0 if rng.random() < 0.7 else rng.choice([4, 12, 40])
+    cx.conf.Cas.noaliasing = rng.random() >= 0.15
+    widening = rng.random() < 0.4
+    opts = OPTS if widening else [o for o in OPTS if "widening" not in o]
+    n = rng.choice(V_WIDTHS)
+    d = vgen_operand(rng, n)
+    R = VRegs(cx.E)
+    try:
+        e = vbuild(cx.E, R, d)
+    except (MemoryError, RecursionError):
+        return
+    except Exception:
+        out["ops"]["(vec operand not buildable)"] = out["ops"].get("(vec operand not buildable)", 0) + 1
+        return
+    snap = snapshot(reachable(e))
+    if not snap:
+        return
+    envs = X.valuations(rng, {nm: g.size for nm, g in R.regs.items()}, 3)
+    out["n"] += 1
+    root = snap[0][1]
+    for kd in ("vec", "vecw", "top", "bot"):
+        if has_kind(root, (kd,)):
+            out["kinds"][kd] = out["kinds"].get(kd, 0) + 1
+    if has_kind(root, ("vec",)):
+        out["nontrivial"] += 1
+    if verbose:
+        print("operand:", e, " complexity threshold:", cx.conf.Cas.complexity, " widening option used:", widening)
+    signal.setitimer(signal.ITIMER_VIRTUAL, 20)
+    signal.alarm(300)
+    try:
+        names = []
+        for _r in range(rng.randrange(1, 3)):
+            try:
+                if rng.random() < 0.5:
+                    names += apply_ops(cx, e, R, rng, snap, opts)
+                else:
+                    names += apply_vec_ops(cx, e, R, rng, snap, opts)
+            except RecursionError:
+                names.append("recursion-raised")       # (operators on a bottom value recurse for ever: raising is C01's subject)
+        bad = compare_sets(snap, envs)
+    except CaseTimeout:
+        names, bad = ["timeout"], []
+    except (MemoryError, RecursionError):
+        names, bad = ["resource"], []
+    finally:
+        signal.setitimer(signal.ITIMER_VIRTUAL, 0)
+        signal.alarm(0)
+    if verbose:
+        print("after operations %s:" % names, e)
+    for nm in names:
+        out["ops"]["vec:" + nm] = out["ops"].get("vec:" + nm, 0) + 1
+    for kind, detail, d0, d1 in bad:
+        if kind == "reshaped-equivalent":
+            out["reshaped"] += 1
+            continue
+        if kind == "reshaped-undecided":
+            out["undecided"] += 1
+            continue
+        if kind == "value-set-widened" and not WATCH_IN_PLACE_WIDENING:
+            out["widened"] += 1
+            continue
+        key = "vec|%s|%s" % (kind, d0[0])
+        if key not in out["finds"]:
+            out["finds"][key] = {"vec_case_seed": case_seed, "operand": d, "threshold": cx.conf.Cas.complexity, "widening": widening,
+                                 "ops": names, "detail": detail}
+        if verbose:
+            print(kind, detail)
+
+
+def vec_worker(args):
+    import signal
+    import resource
+    seed, ncases = args
+    cx = c01.Ctx()
+    rng = random.Random(seed)
+    out = {"n": 0, "finds": {}, "ops": {}, "nontrivial": 0, "reshaped": 0, "undecided": 0, "widened": 0, "kinds": {}}
+    signal.signal(signal.SIGALRM, _alarm)
+    signal.signal(signal.SIGVTALRM, _alarm)
+    resource.setrlimit(resource.RLIMIT_AS, (3 << 30, 3 << 30))
+    saved = (cx.conf.Cas.complexity, cx.conf.Cas.memtrace, cx.conf.Cas.noaliasing)
+    for _ in range(ncases):
+        vec_case(cx, rng.getrandbits(48), out)
+    cx.conf.Cas.complexity, cx.conf.Cas.memtrace, cx.conf.Cas.noaliasing = saved
+    return out
+
+
 def pickle_part(run, quick):
     cx = c01.Ctx()
     E = cx.E
@@ -999,16 +1520,20 @@ def check(run):
                        "operations use it or one of its nodes as an argument: binary operators (either side) + simplify (plain / bitslice / widening), "
                        "in-place simplify, map write/read, eval (concrete/partial/symbolic), slices, comp assignment, tst branches, unary operators, "
                        "merge, map composition, extensions, comparisons; pickle round trips of expressions, simplified expressions, mappers and "
-                       "memory maps; distinct by (recipe, operations); non-trivial when >= 3 nodes are watched")
+                       "memory maps; distinct by (recipe, operations); non-trivial when >= 3 nodes are watched; vec operands (alternatives incl. top / "
+                       "bottom / widened vec, nested in operators, slices, conditionals, compositions, map values) under the same operations "
+                       "plus raw-node simplify / composer / map-holds-operand, compared as sets of values")
     import multiprocessing as mp
     import gc
     tasks = [(run.seed * 4099 + i, 500 if quick else 9000) for i in range(14)]
     gc.collect()
     gc.freeze()
     mtasks = [(run.seed * 7919 + 1000 + i, 25 if quick else 400) for i in range(14)]
+    vtasks = [(run.seed * 6007 + 2000 + i, 500 if quick else 9000) for i in range(14)]
     with mp.get_context("fork").Pool(14) as pool:
         results = pool.map(worker, tasks, chunksize=1)
         mresults = pool.map(map_worker, mtasks, chunksize=1)
+        vresults = pool.map(vec_worker, vtasks, chunksize=1)
     run.static_part()
     reshaped = []
     for r in results:
@@ -1028,6 +1553,21 @@ def check(run):
             run.cov.setdefault("operations", {})[k] = run.cov.setdefault("operations", {}).get(k, 0) + v
         for k, v in sorted(r["finds"].items()):
             run.violation(k, "maps as values: %s (operations %s)" % (v["detail"][:300], v["ops"]), v)
+    vstat = {"operands": 0, "reshaped_equivalent": 0, "reshaped_undecided": 0, "operands_holding": {}}
+    for r in vresults:
+        run.cov["evaluations"] += r["n"]
+        run._distinct.update(("v%d-%d" % (id(r), j)).encode() for j in range(r["nontrivial"]))
+        vstat["operands"] += r["n"]
+        vstat["reshaped_equivalent"] += r["reshaped"]
+        vstat["reshaped_undecided"] += r["undecided"]
+        vstat["widened_in_place"] = vstat.get("widened_in_place", 0) + r["widened"]
+        for k, v in r["kinds"].items():
+            vstat["operands_holding"][k] = vstat["operands_holding"].get(k, 0) + v
+        for k, v in r["ops"].items():
+            run.cov.setdefault("operations", {})[k] = run.cov.setdefault("operations", {}).get(k, 0) + v
+        for k, v in sorted(r["finds"].items()):
+            run.violation(k, "vec operands as values: %s (operations %s)" % (v["detail"][:400], v["ops"]), v)
+    run.cov["vec_operands"] = vstat
     # re-shaped nodes: before/after trees must denote the same in the Gallina reference semantics
     rows, meta = [], []
     for d0, d1, envs in reshaped[:400]:
@@ -1051,6 +1591,9 @@ def check(run):
     pickle_part(run, quick)
     run.cov["trusted_base"] += ["harness/exptree.py walker (dump, ref_dump) and harness/c13.py object-graph traversal (reachable)"]
     run.assumptions += ["nodes whose reference value is ambiguous (top, memory, mixed signedness) are compared by shape and width only",
+                        "vec operands: an operand that loses a value it could take is a violation; one that only gains values (in-place "
+                        "over-approximation by the complexity threshold, widening=True, or bit-slicing a masked vec) is counted, not decided "
+                        "(WATCH_IN_PLACE_WIDENING)",
                         "operations that raise are C01's subject; the watch still applies to the nodes they touched before raising"]
     return run
 
@@ -1059,6 +1602,13 @@ def replay(path):
     obj = json.load(open(path))["replay"]
     isa.load_all()
     cx = c01.Ctx()
+    if "vec_case_seed" in obj:
+        signal = __import__("signal")
+        signal.signal(signal.SIGALRM, _alarm)
+        signal.signal(signal.SIGVTALRM, _alarm)
+        out = {"n": 0, "finds": {}, "ops": {}, "nontrivial": 0, "reshaped": 0, "undecided": 0, "widened": 0, "kinds": {}}
+        vec_case(cx, obj["vec_case_seed"], out, verbose=True)
+        return 1 if out["finds"] else 0
     if "recipe" in obj and "ops" in obj:
         print(obj["ops"], obj.get("detail"))
         return 1
